@@ -8,7 +8,7 @@ from checks import tsa_common as tc
 
 PID = 'C29'
 SCHEDULE_DEPENDENT = False
-RULE = ('seeded histories over 2-4 instances of 1-2 classes built with MetaThreadSafeAttributes (1-2 attributes each; in 30% of the runs the classes define value-based __eq__/__hash__ so that distinct instances compare equal): '
+RULE = ('seeded histories over 2-4 instances of 1-2 classes built with MetaThreadSafeAttributes (1-2 attributes each; in 30% of the runs the classes define value-based __eq__/__hash__ so that distinct instances compare equal, in 40% __len__ or __bool__ so that instances are falsy): '
         'instance creation at arbitrary points, instances that die and are replaced by new ones (address reuse), instances made by copy.copy / copy.deepcopy / __dict__.update of a live one (independent from then on), assignments, augmented assignments and reads written as source-line '
         'statements, executed by 1-3 simulated threads taking turns; oracle: a per-instance store model - every read returns '
         'the value last stored on that very instance (0 for a fresh instance), whatever was stored on other instances or '
@@ -42,6 +42,7 @@ def generate(seed, stratum, tier):
     ops.append({'thread': rng.randrange(3), 'inst': i, 'attr': a, 'kind': k, 'k': val * 3 + 1, 'step': step,
                 'other': other, 'other_attr': a if k == 'aug_other' else rng.choice(attrs)})
   return {'nclasses': nclasses, 'attrs': attrs, 'instances': inst, 'ops': ops, 'value_equality': rng.random() < 0.3,
+          'falsy': rng.choice([None, None, None, 'len', 'bool']),
           'sched': {'gran': 'line', 'policy': 'sticky', 's': 1.0}}
 
 
@@ -72,7 +73,7 @@ def text(op):
 def execute(sc, sched):
   res = RunResult()
   sim = common.new_sim(sc, sched, max_steps=100000)
-  classes = [tc.make_class(sc['attrs'], 'Thing%d' % i, value_equality=sc.get('value_equality', False)) for i in range(sc['nclasses'])]
+  classes = [tc.make_class(sc['attrs'], 'Thing%d' % i, value_equality=sc.get('value_equality', False), falsy=sc.get('falsy')) for i in range(sc['nclasses'])]
   objs = {}
   model = {}
   log = []
